@@ -5,6 +5,7 @@ from .rules import solver_rules as S
 from .rules import dd_rules as D
 from .rules import store_rules as T
 from .rules import gap_rules as GR
+from .rules import fringe_rules as FR
 
 COMMON_ASSUME = [
     'rustc MIR construction, name resolution and the fact extractor (engine/factsdrv) are trusted',
@@ -45,6 +46,9 @@ RULE_FUNCS = [
     (D.r_flags, ['R06.4']),
     (D.r_pooled_layers, ['R15.1', 'R15.2', 'R15.3']),
     (GR.r_gap, ['R17']),
+    (FR.r_simple_fringe, ['R11.a']),
+    (FR.r_maxub, ['R11.b']),
+    (FR.r_nodup, ['R11.c', 'R11.d', 'R11.e', 'R11.g']),
     (T.r_partial_cmp, ['R10.1']),
     (T.r_dom_cmp, ['R10.2']),
     (T.r_dom_store, ['R10.3', 'R10.4', 'R10.5', 'R18.a', 'R18.c']),
@@ -94,15 +98,16 @@ def _c03_keep(r):
 
 PROPS = {
     'C01': dict(fn=mk(['R01.', 'R07.1']), explanation='prune polarity at the pop / enqueue / rough-bound sites, restricted->relaxed->enqueue protocol, Complete only on an empty fringe, exactness withdrawn on every path that squashes a layer'),
-    'C02': dict(fn=mk(['R02.']), explanation='incumbent value and solution written together from the exact accessors of one diagram (one lock region in the parallel solver), improve-only guard, reported value = best_sol.map(|_| best_lb); longest-path max-update with witness edge; value and path read from one node; exact-best selection table'),
+    'C02': dict(fn=mk(['R02.', 'R12.a']), explanation='incumbent value and solution written together from the exact accessors of one diagram (one lock region in the parallel solver), improve-only guard, reported value = best_sol.map(|_| best_lb); longest-path max-update with witness edge; value and path read from one node; exact-best selection table'),
     'C03': dict(fn=mk(['R01.1', 'R01.2', 'R01.3', 'R01.4', 'R01.5', 'R02.1', 'R02.2', 'R03.'], _c03_keep), explanation='C01 clauses instantiated on ParallelSolver, lock regions (no re-entrant acquisition, one acquisition per check-then-act), pop-time discard polarity, cache mark guarded by must_explore'),
     'C04': dict(fn=mk(['R04.']), explanation='checked premises P1-P8 of the deadlock-freedom argument (DESIGN.md C04): pairing of ongoing, release on every worker exit, wake-up not before the decrement, wait guards (path-consistent enumeration), completion guard, no re-entrant lock, vector length coupled to nb_threads, spawn range'),
-    'C05': dict(fn=mk(['R05.', 'R19.1']), explanation='cutoff => Err without finalisation; Err => abort_search on all paths; abort_proof set; completion unreachable after abort; bound stored at abort covers own node, in-flight nodes and fringe top; sequential best_ub written at pop only'),
+    'C05': dict(fn=mk(['R05.', 'R19.1', 'R19.2', 'R11.b']), explanation='cutoff => Err without finalisation; Err => abort_search on all paths; abort_proof set; completion unreachable after abort; bound stored at abort covers own node, in-flight nodes and fringe top; sequential best_ub written at pop only'),
     'C06': dict(fn=mk(['R06.', 'R02.4', 'R02.6', 'R01.6', 'R01.7']), explanation='arc redirection with relaxed cost, relaxed/deleted flags, exactness propagation, complete reset between compilations (field table from the ADT), flag bits and tables, rough-bound pruning direction, exactness withdrawn when squashing'),
-    'C07': dict(fn=mk(['R07.', 'R01.7', 'R02.4', 'R02.5', 'R13.a', 'R13.b']), explanation='restricted never merges, exact never squashes, truncation withdraws exactness and flags dropped nodes, squash order, value and path from one node through the best-edge chain, expanded vector is the squashed one'),
+    'C07': dict(fn=mk(['R07.', 'R01.7', 'R02.4', 'R02.5', 'R13.a', 'R13.b', 'R06.3', 'R12.a']), explanation='restricted never merges, exact never squashes, truncation withdraws exactness and flags dropped nodes, squash order, value and path from one node through the best-edge chain, expanded vector is the squashed one'),
     'C08': dict(fn=mk(['R08.', 'R01.4', 'R15.3', 'R12.e'], lambda r: r['rule'] != 'R12.e' or 'relax-' in r['instance'] or 'merge' in r['instance']), explanation='sub-problem fields from one exact, marked node; frontier/LEL admission; progress (first layer never squashed; root test for diagrams that keep nodes in the pool); ub term set; local-bound max-update; push unless ub <= best_lb'),
     'C09': dict(fn=mk(['R09.']), explanation='who writes thresholds and when; explored flag; filter below the root only; filter polarity and theta inheritance; closed list of theta writes with their guards; cache entry fields; mark at pop; must_explore before compiling'),
     'C10': dict(fn=mk(['R10.']), explanation='decision tables extracted by path enumeration with literal consistency: partial_cmp loop automaton (9 cases) and value stage (9 cases), cmp polarity, retain closure table, threshold terms, store keys, in-layer filtering protocol'),
+    'C11': dict(fn=mk(['R11.']), explanation='SimpleFringe delegation to BinaryHeap with CompareSubProblem(MaxUB); MaxUB lexicographic order and operand order; NoDupFringe: len/is_empty/clear, pop/push pairing (slot recycled, key forgotten, position recorded), swaps update both tables, dedup key derived from state AND depth, merge table of the Occupied arm (9 cases), bubble-up decision on the merged candidate'),
     'C12': dict(fn=mk(['R12.', 'R15.2']), explanation='provenance (origin terms) of every argument of transition, transition_cost, relax, merge, for_each_in_domain, next_variable; who may call _branch_on; depth counter; merged slice has at least two members'),
     'C13': dict(fn=mk(['R13.']), explanation='squash executed on every expanded layer vector; symbolic length <= max_width at every exit of _restrict/_relax; width guards'),
     'C14': dict(fn=mk(['R14.', 'R01.1', 'R01.4', 'R01.6', 'R09.4', 'R02.1'], lambda r: r['rule'] != 'R02.1' or 'improve-only' in r['instance']), explanation='set_primal strictness table, both fields under one guard; no prune site (pop, enqueue, rough bound, cache filter) discards a node with ub > best_lb; incumbent replaced only on improvement'),
@@ -112,5 +117,5 @@ PROPS = {
                 trusted_base=['rustc MIR construction', 'engine/factsdrv', 'absint_gap.py transfer functions (int->float conversion is monotone, exact at 0 and keeps positive values positive and finite; x/y with 1 <= x, y <= 2^64 does not underflow; IEEE division)'],
                 technique='abstract interpretation (sign/order-cell domain) of the MIR of Solver::gap', level_text='Proof by abstract interpretation: every obligation of the property statement is discharged in every input cell (the cells cover all pairs lb <= ub); no clause of the statement is left undecided.'),
     'C18': dict(fn=mk(['R18.', 'R10.1', 'R10.3', 'R10.4', 'R10.5']), explanation='one DashMap::entry call per read-modify-write (no second accessor), update = Ord::max(new, old), Threshold field order and derives, per-layer indexing, clear/clear_layer/initialize, dominance tables'),
-    'C19': dict(fn=mk(['R19.', 'R02.1', 'R14.1'], lambda r: r['rule'].startswith('R19') or 'improve-only' in r['instance'] or '/strict' in r['instance']), explanation='best_ub := popped ub, child bound = min(parent, child), incumbent improve-only, Complete sets best_ub := best_lb'),
+    'C19': dict(fn=mk(['R19.', 'R02.1', 'R14.1', 'R11.a', 'R11.b', 'R11.e'], lambda r: r['rule'].startswith(('R19', 'R11')) or 'improve-only' in r['instance'] or '/strict' in r['instance']), explanation='best_ub := popped ub, child bound = min(parent, child), incumbent improve-only, Complete sets best_ub := best_lb'),
 }
